@@ -542,3 +542,26 @@ Example failed_insertion_nonvacuous :
   insert_by_cpuset [] false fail_tree (rq HWLOC_OBJ_GROUP 9 93) = (fail_tree, OFail) /\
   snd (insert_by_cpuset [] false fail_tree (rq HWLOC_OBJ_GROUP 9 85)) = OInserted.
 Proof. exact failed_insertion_example. Qed.
+
+(* ---------- special levels (model: Obj.special_level, tied to the C level arrays on every dump by levels_agree) ---------- *)
+(* every object of a special type, wherever it hangs (below normal, memory, I/O or Misc objects - seeded change C01j
+   forgot the Misc children of memory-side caches), is in the level of its type, and a level holds nothing else *)
+Theorem special_level_holds_exactly_its_type : forall root ty o,
+  In o (special_level root ty) <-> In o (flatten root) /\ otype o = ty.
+Proof.
+  intros root ty o. unfold special_level. rewrite filter_In. split; intros [H1 H2]; (split; [exact H1|]).
+  - apply N.eqb_eq, H2.
+  - apply N.eqb_eq, H2.
+Qed.
+Print Assumptions special_level_holds_exactly_its_type.
+
+(* a Misc object below a memory-side cache below a Package is in the Misc level *)
+From HV Require Import Topo.Api.
+Example special_level_example :
+  let misc := Obj (fresh_dobj HWLOC_OBJ_MISC 5 None None None None (-1)%Z (-1)%Z) [] [] [] [] in
+  let mc := Obj (fresh_dobj HWLOC_OBJ_MEMCACHE 4 (Some (bs_of_N 3)) None (Some (bs_of_N 1)) None (-1)%Z (-1)%Z)
+                [] [Obj (fresh_dobj HWLOC_OBJ_NUMANODE 6 (Some (bs_of_N 3)) None (Some (bs_of_N 1)) None (-1)%Z (-1)%Z) [] [] [] []] [] [misc] in
+  let root := Obj (fresh_dobj HWLOC_OBJ_MACHINE 1 (Some (bs_of_N 3)) None None None (-1)%Z (-1)%Z)
+                  [Obj (fresh_dobj HWLOC_OBJ_PACKAGE 2 (Some (bs_of_N 3)) None None None (-1)%Z (-1)%Z) [] [mc] [] []] [] [] [] in
+  map oid (special_level root HWLOC_OBJ_MISC) = map oid [misc] /\ List.length (special_level root HWLOC_OBJ_NUMANODE) = 1%nat.
+Proof. vm_compute. split; reflexivity. Qed.
